@@ -509,6 +509,10 @@ def _install() -> None:
     _reg("isconstant", g_unary, lambda a, k: a[0].isconstant(), "polyfn", weight=1)
     _reg("todict", g_unary, lambda a, k: a[0].todict(), "polyfn", weight=1)
     _reg("tonumpy", lambda ch: {"args": [P(model.gen_constant(ch.sub("c"), names=gen_names(ch.sub("n"))))], "kwargs": {}}, lambda a, k: a[0].tonumpy(), "polyfn", weight=1)
+    def _to_sympy(a: list, k: dict) -> Any:
+        return n.to_sympy(a[0])
+
+    _reg("to_sympy", lambda ch: g_unary(ch, shape=ch.choice([(), (), (2,)]), kind=ch.choice(["int", "float"]), max_terms=4), _to_sympy, "polyfn", weight=1)
     _reg("pickle", g_unary, lambda a, k: pickle.loads(pickle.dumps(a[0], protocol=k.get("protocol", 2))), "polyfn")
     _reg("copy.copy", g_unary, lambda a, k: copy.copy(a[0]), "polyfn", weight=1)
     _reg("copy.deepcopy", g_unary, lambda a, k: copy.deepcopy(a[0]), "polyfn", weight=1)
